@@ -23,7 +23,7 @@ Definition no_start (t : tok) : Prop :=
   | t => pt_unary T t = None
   end.
 
-Lemma prec_err q c f : no_start (token c) -> go T (S f) (QPrec q c) = Err.
+Lemma prec_err q c f : no_start (token c) -> go T (S f) (QPrec q c) = Err (skip 1 c) [consumed c].
 Proof.
   intros H. rewrite go_S. cbn [step]. unfold step_prec, prefix.
   destruct (token c) as [s|s|z|s|b| |k|]; cbn [no_start] in H; try contradiction.
@@ -99,10 +99,11 @@ Lemma args_stop acc p rest ov b f : prime_end b rest ->
 Proof.
   intros H. rewrite go_S. cbn [step]. unfold step_args. cbn [token post].
   destruct rest as [|t r]; [reflexivity|]. destruct H as ([->|N] & _); [reflexivity|].
-  assert (E : go T (S f) (QPrec (pt_entry T) (C p (t :: r) ov b)) = Err) by (apply prec_err; exact N).
+  assert (E : go T (S f) (QPrec (pt_entry T) (C p (t :: r) ov b)) = Err (skip 1 (C p (t :: r) ov b)) [consumed (C p (t :: r) ov b)])
+    by (apply prec_err; exact N).
   assert (R : run (go T (S f)) (ptry (expression T (C p (t :: r) ov b))
                  (fun '(e, c1) => call (QArgs true (acc ++ [e]) (after_arg c1)))
-                 (if true then ok (REs acc (C p (t :: r) ov b)) else err))
+                 (fun c' es => if true then ok (REs acc (C p (t :: r) ov b)) else reraise c' es))
               = Ok (REs acc (C p (t :: r) ov b))).
   { unfold expression. rewrite !run_ptry. unfold call_E. cbn [run]. rewrite E. reflexivity. }
   destruct t as [s|s|z|s|b0| |k|]; cbn [no_start] in N; try contradiction; try exact R; try reflexivity.
@@ -198,10 +199,10 @@ Proof.
 Qed.
 
 Lemma ta_err_plain p r ts ov b : is_capitalized r = false -> clean b ts -> is_k KDot (C (TIdent r :: p) ts ov b) = false ->
-  type_assignable (C p (TIdent r :: ts) ov b) = Err.
+  is_err (type_assignable (C p (TIdent r :: ts) ov b)).
 Proof.
   intros Hr Hc Hd. unfold type_assignable. cbn [token post]. rewrite Hr.
-  rewrite skip1; [|discriminate|exact Hc]. unfold expect. rewrite Hd. reflexivity.
+  rewrite skip1; [|discriminate|exact Hc]. unfold expect. rewrite Hd. exact I.
 Qed.
 
 Lemma prec_ident_plain q p r ts ov b f a c1 :
@@ -210,7 +211,9 @@ Lemma prec_ident_plain q p r ts ov b f a c1 :
   go T (S f) (QPrec q (C p (TIdent r :: ts) ov b)) = go T f (QLoop q (EGet a) c1).
 Proof.
   intros Hr Hc Hd Ha. rewrite go_S. cbn [step]. unfold step_prec, prefix. cbn [token post].
-  rewrite ta_err_plain by assumption. cbv iota. unfold assignable_p. cbn [token post].
+  pose proof (ta_err_plain p r ts ov b Hr Hc Hd) as E.
+  destruct (type_assignable (C p (TIdent r :: ts) ov b)); try contradiction.
+  cbv iota. unfold assignable_p. cbn [token post].
   rewrite skip1; [|discriminate|exact Hc].
   rewrite !run_ptry. unfold call_A. cbn [run]. rewrite Ha. cbn [get_A get_E run ok ptry]. apply run_call.
 Qed.
@@ -401,11 +404,15 @@ Qed.
 
 (* the tail of `statement`: what happens after the loop body has been parsed *)
 Definition loop_finish (old : bool) (cond : expr) (body : stmt) (c3 : ctx) : res out :=
-  let c1 := prev c3 in
-  match (if is_k KEnd c1 || is_k KElse c1 || is_k KElif c1 then Ok c1 else expect KNewline c1) with
-  | Ok c2 => Ok (RS (SLoop cond body) (pop_nl old c2))
-  | Err => Err
-  | Fuel => Fuel
+  match prev c3 with
+  | None => Panic
+  | Some c1 =>
+      match (if is_k KEnd c1 || is_k KElse c1 || is_k KElif c1 then Ok c1 else expect KNewline c1) with
+      | Ok c2 => Ok (RS (SLoop cond body) (pop_nl old c2))
+      | Err c es => Err c es
+      | Fuel => Fuel
+      | Panic => Panic
+      end
   end.
 
 (* `loop do <body>`: the condition is the literal `true`, and the body statement is parsed from `do` *)
@@ -420,9 +427,10 @@ Proof.
   change (is_k KDo (C (TK KLoop :: p) (TK KDo :: ts) ov false)) with true. cbv iota.
   cbn [ok ptry]. unfold statement. rewrite !run_ptry. unfold call_S. cbn [run]. rewrite Hb.
   cbn [get_S run ok ptry]. unfold loop_finish, pexpect.
-  destruct (is_k KEnd (prev c3) || is_k KElse (prev c3) || is_k KElif (prev c3)).
+  destruct (prev c3) as [cp|]; [|reflexivity]. cbn [run ok ptry].
+  destruct (is_k KEnd cp || is_k KElse cp || is_k KElif cp).
   - reflexivity.
-  - cbn [run]. destruct (expect KNewline (prev c3)); reflexivity.
+  - cbn [run]. destruct (expect KNewline cp); reflexivity.
 Qed.
 
 (* `loop true do <body>`: the same, with one more token behind the body's starting point *)
@@ -442,27 +450,41 @@ Proof.
   rewrite loop_stop by (left; exact Hdo).
   cbn [get_E run ok ptry]. rewrite !run_ptry. unfold call_S. cbn [run]. rewrite Hb.
   cbn [get_S run ok ptry]. unfold loop_finish, pexpect.
-  destruct (is_k KEnd (prev c3) || is_k KElse (prev c3) || is_k KElif (prev c3)).
+  destruct (prev c3) as [cp|]; [|reflexivity]. cbn [run ok ptry].
+  destruct (is_k KEnd cp || is_k KElse cp || is_k KElif cp).
   - reflexivity.
-  - cbn [run]. destruct (expect KNewline (prev c3)); reflexivity.
+  - cbn [run]. destruct (expect KNewline cp); reflexivity.
 Qed.
 
-Lemma loop_finish_smp b cond body c3 c3' :
-  same_modulo_pre (prev c3) (prev c3') ->
-  match loop_finish b cond body c3, loop_finish b cond body c3' with
+(* two outcomes that agree up to what lies behind the cursor *)
+Definition same_out (r r' : res out) : Prop :=
+  match r, r' with
   | Ok (RS s1 c1), Ok (RS s2 c2) => s1 = s2 /\ same_modulo_pre c1 c2
-  | Err, Err => True
+  | Err c1 es1, Err c2 es2 => same_modulo_pre c1 c2
+  | Panic, Panic => True
   | _, _ => False
   end.
+
+Definition prev_smp (c3 c3' : ctx) : Prop :=
+  match prev c3, prev c3' with
+  | Some a, Some b => same_modulo_pre a b
+  | None, None => True
+  | _, _ => False
+  end.
+
+Lemma loop_finish_smp b cond body c3 c3' :
+  prev_smp c3 c3' -> same_out (loop_finish b cond body c3) (loop_finish b cond body c3').
 Proof.
-  intros H. unfold loop_finish.
-  assert (Tk : token (prev c3) = token (prev c3')) by (unfold token; destruct H as (-> & _); reflexivity).
-  unfold is_k, expect, is_k. rewrite <- Tk.
-  destruct (tok_is KEnd (token (prev c3)) || tok_is KElse (token (prev c3)) || tok_is KElif (token (prev c3))).
+  unfold prev_smp, loop_finish. intros H.
+  destruct (prev c3) as [cp|], (prev c3') as [cp'|]; try contradiction; [|exact I].
+  assert (Tk : token cp = token cp') by (unfold token; destruct H as (-> & _); reflexivity).
+  unfold is_k, expect, is_k, raise. rewrite <- Tk.
+  destruct (tok_is KEnd (token cp) || tok_is KElse (token cp) || tok_is KElif (token cp)).
   - split; [reflexivity|]. unfold pop_nl, set_nl. destruct H as (A & B & _). repeat split; assumption.
-  - destruct (tok_is KNewline (token (prev c3))); [|exact I].
-    split; [reflexivity|]. pose proof (skip_smp 1 _ _ H) as (A & B & _).
-    unfold pop_nl, set_nl. repeat split; assumption.
+  - pose proof (skip_smp 1 _ _ H) as (A & B & D).
+    destruct (tok_is KNewline (token cp)); cbn [same_out].
+    + split; [reflexivity|]. unfold pop_nl, set_nl. repeat split; assumption.
+    + repeat split; assumption.
 Qed.
 
 (* C14 loop_do, conditional form: IF the body statement parses to the same statement from the two starting
@@ -472,13 +494,9 @@ Theorem loop_do_conditional p ts ov b f body c3 c3' :
   pt_valid T (TK KDo) = false ->
   go T (S (S f)) (QStmt (C (TK KLoop :: p) (TK KDo :: ts) ov false)) = Ok (RS body c3) ->
   go T (S (S f)) (QStmt (C (TBool true :: TK KLoop :: p) (TK KDo :: ts) ov false)) = Ok (RS body c3') ->
-  same_modulo_pre (prev c3) (prev c3') ->
-  match go T (S (S (S f))) (QStmt (C p (TK KLoop :: TK KDo :: ts) ov b)),
-        go T (S (S (S f))) (QStmt (C p (TK KLoop :: TBool true :: TK KDo :: ts) ov b)) with
-  | Ok (RS s1 c1), Ok (RS s2 c2) => s1 = s2 /\ same_modulo_pre c1 c2
-  | Err, Err => True
-  | _, _ => False
-  end.
+  prev_smp c3 c3' ->
+  same_out (go T (S (S (S f))) (QStmt (C p (TK KLoop :: TK KDo :: ts) ov b)))
+           (go T (S (S (S f))) (QStmt (C p (TK KLoop :: TBool true :: TK KDo :: ts) ov b))).
 Proof.
   intros Hdo HA HB Hs.
   rewrite (loop_do_step p ts ov b (S (S f)) body c3 HA).
@@ -495,7 +513,7 @@ End Sugar.
 Definition statement_pre_insensitive_statement (T : ptab) : Prop :=
   forall f c c' s c3, same_modulo_pre c c' ->
     go T f (QStmt c) = Ok (RS s c3) ->
-    exists c3', go T f (QStmt c') = Ok (RS s c3') /\ same_modulo_pre c3 c3' /\ same_modulo_pre (prev c3) (prev c3').
+    exists c3', go T f (QStmt c') = Ok (RS s c3') /\ same_modulo_pre c3 c3' /\ prev_smp c3 c3'.
 
 (* the unconditional form of C14 loop_do; follows from [loop_do_conditional] and the statement above *)
 Definition loop_do_statement (T : ptab) : Prop :=
